@@ -150,6 +150,7 @@ type scenario struct {
 	Name  string   `json:"name"`
 	Setup []env.Op `json:"setup,omitempty"`
 	Ops   []env.Op `json:"ops"`
+	Big   bool     `json:"big,omitempty"` // schedule tree too large for complete enumeration
 }
 
 const relName = "rel"
@@ -174,9 +175,9 @@ var scenarios2 = []scenario{
 	{Name: "deployed: upgrade‖upgrade", Setup: atLimit(1), Ops: []env.Op{up(0), up(0)}},
 	{Name: "deployed: upgrade‖install", Setup: atLimit(1), Ops: []env.Op{up(0), inst(false)}},
 	{Name: "deployed: upgrade‖install --replace", Setup: atLimit(1), Ops: []env.Op{up(0), inst(true)}},
-	{Name: "at limit 1: upgrade‖upgrade max-history=1", Setup: atLimit(1), Ops: []env.Op{up(1), up(1)}},
-	{Name: "at limit 2: upgrade‖upgrade max-history=2", Setup: atLimit(2), Ops: []env.Op{up(2), up(2)}},
-	{Name: "at limit 3: upgrade‖upgrade max-history=3", Setup: atLimit(3), Ops: []env.Op{up(3), up(3)}},
+	{Big: true, Name: "at limit 1: upgrade‖upgrade max-history=1", Setup: atLimit(1), Ops: []env.Op{up(1), up(1)}},
+	{Big: true, Name: "at limit 2: upgrade‖upgrade max-history=2", Setup: atLimit(2), Ops: []env.Op{up(2), up(2)}},
+	{Big: true, Name: "at limit 3: upgrade‖upgrade max-history=3", Setup: atLimit(3), Ops: []env.Op{up(3), up(3)}},
 }
 
 var scenarios3 = []scenario{
